@@ -1,16 +1,24 @@
-import H2V.Lemmas.ConnFlowPCap
+import H2V.Lemmas.ConnFlowPMain
 /-
   C16 — the send-capacity API tells the truth.
-  Property theorems only (lemmas: `H2V/Lemmas/ConnFlowP*.lean`, notes: `ConnFlowPNOTES.md`).
-  Vocabulary as in `H2V/Props/C02.lean`; `sumCap m slab` = Σ over the slab of what `capacity()` reports.
+  Property theorems only (lemmas: `H2V/Lemmas/ConnFlowP*.lean`; what is partial and why:
+  `H2V/Lemmas/ConnFlowPNOTES.md`).  Vocabulary as in `H2V/Props/C02.lean`, plus
+    * `sumCap m slab` — Σ over the slab of what `capacity()` reports;
+    * `total s`       — all the send capacity there is: `sumAv slab` + the connection's `available`;
+    * `giveBack s id n` — `claim_capacity(n)` on the stream + `assign_capacity(n)` on the connection: the
+                        first half of `reclaim_all_capacity`, `reclaim_reserved_capacity`, a lowered
+                        `reserve_capacity`;
+    * `SafeInvG n s`  — the invariant with `n` octets in transit between a stream and the connection;
+    * `ReqOk s`       — every `requested_send_capacity` is a `u32` (holds in every reachable state and is
+                        preserved by every model function, `Reach.reqOk`).
 -/
 namespace H2V.Props.C16
 open H2V H2V.Model H2V.Model.Conn H2V.Lemmas.ConnFlowP
 
 /-- **Reported capacity is usable.**  In every reachable state, what `SendStream::capacity()` reports
-    for a stream (`Send::capacity`) is at most the capacity assigned to the stream, at most the
-    stream's send window, at most the connection send window, and at most `max_send_buffer_size`:
-    that many octets can be handed to `pop_frame` without any further grant from the peer. -/
+    for a stream is at most the capacity assigned to it, at most the stream's send window, at most
+    the connection send window and at most `max_send_buffer_size`: that many octets pass `pop_frame`'s
+    tests (`C02.data_frame_within_windows`) without any further grant from the peer. -/
 theorem reported_capacity_is_usable {s : Streams} (h : Reach s) (k : Nat) :
     s.sendCapacity k ≤ (s.stream k).sendFlow.available.asSize ∧
     s.sendCapacity k ≤ (s.stream k).sendFlow.windowSz ∧
@@ -27,16 +35,15 @@ theorem total_assigned_le_connection_window {s : Streams} (h : Reach s) :
     0 ≤ s.prio.flow.available.val :=
   ⟨by simpa using h.safe.ledger, h.safe.sumCap_le, h.safe.a0⟩
 
-example : Reach ({ actions := { send := { prioritize := { flow := flowInit } } } } : Streams) :=
-  .init ⟨rfl, rfl⟩
+example (g : Conn.Cfg) : Reach (Conn.init g).streams := init_reach g
 
 /-- **A capacity notification never reports zero**: `poll_capacity` never answers
     `Ready(Some(Ok(0)))` (any state, any stream, any waker) … -/
 theorem poll_capacity_never_zero (s : Streams) (id : Nat) (tag : String) : (s.pollCapacity id tag).2 ≠ .cap 0 :=
   pollCapacity_ne_zero s id tag
 
-/-- … what it reports is the positive capacity the stream has at that moment (so, in a reachable
-    state, usable in the sense of `reported_capacity_is_usable`) … -/
+/-- … what it reports is the positive capacity the stream has at that moment (in a reachable state:
+    usable in the sense of `reported_capacity_is_usable`) … -/
 theorem poll_capacity_reports_current_capacity {s : Streams} {id n : Nat} {tag : String}
     (h : (s.pollCapacity id tag).2 = .cap n) : n = (s.pollCapacity id tag).1.sendCapacity id ∧ 0 < n :=
   pollCapacity_cap h
@@ -47,24 +54,106 @@ theorem poll_capacity_pending_registers_waker {s : Streams} {id : Nat} {tag : St
     ((s.pollCapacity id tag).1.stream id).sendTask = some tag :=
   pollCapacity_pending hget h
 
-/-- **A wait for capacity is woken when capacity arrives**: whenever `Stream::assign_capacity` makes
-    what `capacity()` reports grow, the `send_capacity_inc` flag is raised (the next `poll_capacity`
-    will look at the capacity instead of parking again) and the waker parked in `send_task` is woken. -/
-theorem capacity_growth_wakes_waiter (x : Stream) (n m : Nat)
-    (hgrow : x.capacity m < ({ x with sendFlow := (x.sendFlow.assignCapacity n).1 } : Stream).capacity m) :
-    (x.assignCapacity n m).1.sendCapacityInc = true ∧ (x.assignCapacity n m).1.sendTask = none ∧
-    ∀ t, x.sendTask = some t → t ∈ (x.assignCapacity n m).2 :=
-  assignCapacity_notifies x n m hgrow
+/-- **A wait for capacity is woken when capacity arrives**: when `try_assign_capacity` makes what
+    `capacity()` reports for a stream grow, the waker parked in the stream's `send_task` is in the
+    wake log afterwards and `send_capacity_inc` is set (the woken `poll_capacity` reports the capacity
+    instead of parking again).  `try_assign_capacity` is the only function that assigns capacity. -/
+theorem capacity_growth_wakes_waiter {s : Streams} {id : Nat} {st : Stream} {tag : String}
+    (hget : s.store.get? id = some st) (ht : st.sendTask = some tag)
+    (hgrow : s.sendCapacity id < (s.tryAssignCapacity id).sendCapacity id) :
+    tag ∈ (s.tryAssignCapacity id).wakes ∧ ((s.tryAssignCapacity id).stream id).sendCapacityInc = true :=
+  tryAssign_wakes hget ht hgrow
 
-example : ({ id := 1, sendFlow := ⟨⟨100⟩, ⟨0⟩⟩ } : Stream).capacity 1000 <
-    ({ ({ id := 1, sendFlow := ⟨⟨100⟩, ⟨0⟩⟩ } : Stream) with
-        sendFlow := (FlowControl.assignCapacity ⟨⟨100⟩, ⟨0⟩⟩ 10).1 } : Stream).capacity 1000 := by decide
-
-/-- **… or when the stream can no longer send**: `Stream::set_reset` (our reset, a library reset, the
-    reset `recv_reset`/`handle_error` turn into) wakes the waker parked in `send_task`. -/
+/-- **… or when the stream can no longer send**: `Stream::set_reset` (our reset, a library reset, and
+    what `recv_reset` / `handle_error` / `recv_eof` do through `notify_send`) wakes the waker parked in
+    `send_task`. -/
 theorem reset_wakes_waiter (x : Stream) (r : Reason) (i : Initiator) :
-    (x.setReset r i).1.sendTask = none ∧ ∀ t, x.sendTask = some t → t ∈ (x.setReset r i).2 :=
-  setReset_wakes x r i
+    ((x.setReset r i).1.sendTask = none ∧ ∀ t, x.sendTask = some t → t ∈ (x.setReset r i).2) ∧
+    (x.notifySend.1.sendTask = none ∧ ∀ t, x.sendTask = some t → t ∈ x.notifySend.2) :=
+  ⟨setReset_wakes x r i, notifySend_wakes x⟩
+
+/-- **Unused capacity returns to the connection, exactly.**  `reclaim_all_capacity` (stream reset,
+    error, queue cleared) first gives back everything the stream holds: the stream is left with 0,
+    the connection gets exactly that much, the total is unchanged, the invariant holds; then it runs
+    `assign_connection_capacity`'s loop on that state. -/
+theorem unused_capacity_returns_exactly {s : Streams} (h : SafeInv s) {id : Nat} {st : Stream}
+    (hget : s.store.get? id = some st) (hpos : st.sendFlow.available.asSize > 0) :
+    s.reclaimAllCapacity id =
+      Streams.assignConnectionCapacityLoop
+        ((giveBack s id st.sendFlow.available.asSize).prio.pendingCapacity.length + 2)
+        (giveBack s id st.sendFlow.available.asSize) ∧
+    total (giveBack s id st.sendFlow.available.asSize) = total s ∧
+    ((giveBack s id st.sendFlow.available.asSize).stream id).sendFlow.available.val = 0 ∧
+    (giveBack s id st.sendFlow.available.asSize).prio.flow.available.val =
+      s.prio.flow.available.val + st.sendFlow.available.val ∧
+    SafeInv (giveBack s id st.sendFlow.available.asSize) :=
+  reclaim_all_is_exact h hget hpos
+
+/-- the same for any part `n ≤ available` (`reclaim_reserved_capacity`: what exceeds the buffered
+    data when the handles are dropped; a lowered `reserve_capacity`: what exceeds the new request) -/
+theorem partial_give_back_is_exact {s : Streams} (h : SafeInv s) {id n : Nat} {st : Stream}
+    (hget : s.store.get? id = some st) (hn : n ≤ st.sendFlow.available.asSize) :
+    total (giveBack s id n) = total s ∧
+    ((giveBack s id n).stream id).sendFlow.available.val = st.sendFlow.available.val - n ∧
+    (giveBack s id n).prio.flow.available.val = s.prio.flow.available.val + n ∧
+    (giveBack s id n).prio.flow.windowSize = s.prio.flow.windowSize ∧
+    (giveBack s id n).store.slab.map (·.key) = s.store.slab.map (·.key) ∧
+    SafeInv (giveBack s id n) :=
+  giveBack_exact h hget hn
+
+/-- **… and reaches other waiting streams.**  `assign_connection_capacity` stops only when the
+    connection has nothing left or no stream waits in `pending_capacity` (the model's fuel is enough
+    for that), whatever `inc` octets it was called with. -/
+theorem returned_capacity_reaches_waiting_streams {s : Streams} {inc : Nat} (h : SafeInvG inc s) (hr : ReqOk s) :
+    (s.assignConnectionCapacity inc).prio.flow.available.val ≤ 0 ∨
+    (s.assignConnectionCapacity inc).prio.pendingCapacity = [] :=
+  returned_capacity_is_passed_on h hr
+
+/-- a concrete state: one open stream (key 0, id 1) with a 10-octet DATA frame queued, 10 octets of
+    capacity assigned, stream window 100, connection window 65 535 of which 65 525 unassigned -/
+def exState : Streams :=
+  { store := { slab := [{ key := 0, id := 1, state := { inner := .open .streaming .streaming },
+                          isPendingSend := true, sendFlow := ⟨⟨100⟩, ⟨10⟩⟩, requestedSendCapacity := 10,
+                          bufferedSendData := 10, pendingSend := [.data 10 true] }],
+               ids := [(1, 0)], nextKey := 1 },
+    actions := { send := { prioritize := { pendingSend := [0], flow := ⟨⟨65535⟩, ⟨65525⟩⟩ } } } }
+
+example : SafeInvG 0 exState ∧ ReqOk exState := by
+  refine ⟨⟨Int.le_refl _, ⟨by decide, by intro x hx; simp [exState] at hx; subst hx; decide⟩, ?_, by decide, by decide, by decide⟩, ?_⟩
+  · intro x hx; simp [exState] at hx; subst hx
+    exact ⟨by decide, by intro _; decide, by decide, by decide⟩
+  · intro x hx; simp [exState] at hx; subst hx; decide
+
+/-- `ReqOk` is no restriction on reachable states -/
+theorem requested_capacity_is_u32 {s : Streams} (h : Reach s) : ReqOk s := h.reqOk
+
+/-- **Assigning is exact too**: `try_assign_capacity` moves capacity from the connection to the
+    stream and loses none (total unchanged, no stream appears or disappears, no window changes). -/
+theorem assignment_is_exact {s : Streams} (h : SafeInv s) (id : Nat) :
+    total (s.tryAssignCapacity id) = total s ∧
+    (s.tryAssignCapacity id).prio.flow.windowSize = s.prio.flow.windowSize ∧
+    (s.tryAssignCapacity id).store.slab.map (·.key) = s.store.slab.map (·.key) :=
+  tryAssign_exact h id
+
+/-
+  FULL STATEMENT (not proven): in every reachable state the ledger is exact,
+      `sumAv s.store.slab + s.prio.flow.available.val = s.prio.flow.windowSize.val`,
+  i.e. no capacity is ever lost.  With `assignment_is_exact`, `partial_give_back_is_exact`,
+  `C02.data_frame_within_windows` (`Charged`), the WINDOW_UPDATE / SETTINGS lemmas, what is missing is
+  exactly one fact: a stream that `transition_after` releases holds no capacity.  The theorem below
+  says that this is the *only* place where capacity can disappear.
+-/
+/-- **Capacity can get lost in one place only** (partial form of “nothing is ever lost”):
+    `transition_after` keeps the total, except when it releases — removes from the slab — a closed,
+    unreferenced stream that still holds capacity; then exactly that stream's capacity is gone. -/
+theorem capacity_lost_only_by_release_partial {t : Streams} (hk : KeysOk t.store) (id : Nat) (b : Bool) :
+    total (t.transitionAfter id b) = total t ∨
+    ∃ st : Stream, st.key = id ∧ st.isClosed = true ∧ st.refCount = 0 ∧
+      (∃ x ∈ t.store.slab, x.key = id ∧ x.sendFlow = st.sendFlow) ∧
+      total (t.transitionAfter id b) = total t - st.sendFlow.available.val :=
+  transitionAfter_total hk id b
+
+example : KeysOk exState.store := ⟨by decide, by intro x hx; simp [exState] at hx; subst hx; decide⟩
 
 end H2V.Props.C16
 
@@ -75,3 +164,9 @@ end H2V.Props.C16
 #print axioms H2V.Props.C16.poll_capacity_pending_registers_waker
 #print axioms H2V.Props.C16.capacity_growth_wakes_waiter
 #print axioms H2V.Props.C16.reset_wakes_waiter
+#print axioms H2V.Props.C16.unused_capacity_returns_exactly
+#print axioms H2V.Props.C16.partial_give_back_is_exact
+#print axioms H2V.Props.C16.returned_capacity_reaches_waiting_streams
+#print axioms H2V.Props.C16.requested_capacity_is_u32
+#print axioms H2V.Props.C16.assignment_is_exact
+#print axioms H2V.Props.C16.capacity_lost_only_by_release_partial
